@@ -49,6 +49,9 @@ type Fault struct {
 	Point string `json:"point,omitempty"`
 	Nth   int    `json:"nth,omitempty"`
 	Arg   int64  `json:"arg,omitempty"`
+	// OpTag: the fault fires while the request with that tag is in flight (and, if Point is
+	// set, some task is parked at Point).
+	OpTag string `json:"opTag,omitempty"`
 }
 
 // StoreFail makes the Nth call of Method on a ledger's store fail.
@@ -107,6 +110,11 @@ type Op struct {
 	// Pair marks this op as "the real write issued right after an identical preview"
 	// (C14); Twin is the index of its preview in the same client.
 	Twin int `json:"twin,omitempty"`
+	// Tag, when set, names the request (and its marker) instead of its position, so that
+	// two runs of related histories can be compared request by request (C14).
+	Tag string `json:"tag,omitempty"`
+	// Preview marks a request that exists only in the history with previews (C14).
+	Preview bool `json:"preview,omitempty"`
 }
 
 const (
